@@ -150,13 +150,13 @@ type Script struct {
 
 // ---- constructors
 
-func Var(name string) *Expr    { return &Expr{Kind: EVar, Text: name} }
-func Asset(a string) *Expr     { return &Expr{Kind: EAsset, Text: a} }
-func Str(s string) *Expr       { return &Expr{Kind: EStr, Text: s} }
-func Acct(a string) *Expr      { return &Expr{Kind: EAcct, Text: a} }
-func Num(n *big.Int) *Expr     { return &Expr{Kind: ENum, Text: n.String()} }
-func NumI(n int64) *Expr       { return &Expr{Kind: ENum, Text: big.NewInt(n).String()} }
-func Mon(a, n *Expr) *Expr     { return &Expr{Kind: EMon, L: a, R: n} }
+func Var(name string) *Expr     { return &Expr{Kind: EVar, Text: name} }
+func Asset(a string) *Expr      { return &Expr{Kind: EAsset, Text: a} }
+func Str(s string) *Expr        { return &Expr{Kind: EStr, Text: s} }
+func Acct(a string) *Expr       { return &Expr{Kind: EAcct, Text: a} }
+func Num(n *big.Int) *Expr      { return &Expr{Kind: ENum, Text: n.String()} }
+func NumI(n int64) *Expr        { return &Expr{Kind: ENum, Text: big.NewInt(n).String()} }
+func Mon(a, n *Expr) *Expr      { return &Expr{Kind: EMon, L: a, R: n} }
 func PortionLit(t string) *Expr { return &Expr{Kind: EPortion, Text: t} }
 func Infix(op string, l, r *Expr) *Expr {
 	return &Expr{Kind: EInfix, Op: op, L: l, R: r}
